@@ -1318,9 +1318,7 @@ Proof.
   apply safe_bind. eapply safe_get_conn; [exact (inv_heap _ _ I)|exact Hc|].
   apply safe_bind. apply safe_peek. apply safe_bind. apply safe_peek2.
   rewrite (fx_connread_true cf Hfix).
-  assert (Leave : safe (store co (CConn (set_c_reading false c));; ret rq) s (fun _ s' => TokInv s' RC RF)).
-  { apply safe_bind. eapply safe_store; [exact (inv_heap _ _ I)|exact Hc|].
-    apply safe_ret. eapply (tok_store_unlinked None); eauto; try exact Logic.I. eapply conn_not_linked; eauto. }
+  assert (Leave : safe (ret rq) s (fun _ s' => TokInv s' RC RF)) by (apply safe_ret; exact T).
   destruct (hd_error (st_tape s)) as [e|]; [|exact Leave].
   destruct e; try exact Leave.
   - destruct (negb (Nat.eqb sock (c_sock c))); [exact Leave|].
@@ -1337,21 +1335,13 @@ Proof.
     intros rq' s2 [[[I2 St2] [c2 [Hc2 Hrd2]]] T2].
     apply safe_bind. eapply safe_get_conn; [exact (inv_heap _ _ I2)|exact Hc2|].
     destruct (c_closed c2) eqn:Ecl.
-    + apply safe_bind. eapply safe_free; [exact (inv_heap _ _ I2)|exact Hc2|].
-      apply safe_ret. eapply (tok_free None); eauto; [exact Logic.I|]. eapply conn_not_linked; eauto.
+    + apply safe_ret. exact T2.
     + apply IHn; auto. { split; auto. } exists c2; auto.
   - destruct (hd_error (tl (st_tape s))) as [e2|]; [|exact Leave].
     destruct e2; try exact Leave.
     destruct (negb (Nat.eqb sock (c_sock c))); [exact Leave|].
-    apply safe_bind. eapply safe_store; [exact (inv_heap _ _ I)|exact Hc|].
-    destruct (store_conn_flags_ok None s co c (set_c_reading false c) I Hc eq_refl eq_refl) as [I1 [_ [_ [_ Hc1]]]].
-    { simpl. intros H. exact (inv_closed _ _ I _ _ Hc H). }
-    { simpl. intros H. destruct (inv_conns _ _ I) as [_ Hcc]. destruct (Hcc _ H) as [c0 [Hc0 Hcl]].
-      rewrite Hc in Hc0. inversion Hc0; subst. exact Hcl. }
-    assert (T1 : TokInv (store_st co (CConn (set_c_reading false c)) s) RC RF).
-    { eapply (tok_store_unlinked None); eauto; try exact Logic.I. eapply conn_not_linked; eauto. }
     apply safe_bind.
-    eapply safe_mono; [apply (tp_handle_conn_error _ _ IH2 co true st _ _ RC RF I1 Hc1 T1)|].
+    eapply safe_mono; [apply (tp_handle_conn_error _ _ IH2 co true st _ _ RC RF I Hc T)|].
     intros [] s2 T2. apply safe_ret. exact T2.
 Qed.
 
@@ -1367,6 +1357,19 @@ Proof.
     eapply safe_mono; [apply safe_both; [apply (sp_send_query _ _ IH qo s I Hl)|apply (tp_send_query _ _ IH2 qo s RC RF I Hl T)]|].
     intros z s1 [[I1 F1] T1]. apply safe_ret. apply IHr; auto. split; [exact I1|exact (stable_frame _ _ _ St F1)].
   - apply safe_ret. apply IHr; auto. split; auto.
+Qed.
+
+Lemma read_done_tok s co RC RF : Inv2 s -> reading s co -> TokInv s RC RF ->
+  safe (let! c := get_conn co in if c_closed c then free_obj co else store co (CConn (set_c_reading false c))) s
+       (fun _ s' => TokInv s' RC RF).
+Proof.
+  intros [I St] [c [Hc Hrd]] T.
+  apply safe_bind. eapply safe_get_conn; [exact (inv_heap _ _ I)|exact Hc|].
+  destruct (c_closed c) eqn:Ecl.
+  - eapply safe_free; [exact (inv_heap _ _ I)|exact Hc|].
+    eapply (tok_free None); eauto; [exact Logic.I|]. eapply conn_not_linked; eauto.
+  - eapply safe_store; [exact (inv_heap _ _ I)|exact Hc|].
+    eapply (tok_store_unlinked None); eauto; try exact Logic.I. eapply conn_not_linked; eauto.
 Qed.
 
 Lemma read_answers_tok f co s c RC RF : Inv2 s -> cell_of s co = Some (CConn c) -> In co (st_conns s) -> TokInv s RC RF ->
@@ -1386,7 +1389,10 @@ Proof.
   { exists (set_c_reading true c). split; auto. }
   apply safe_bind.
   eapply safe_mono; [apply safe_both; [apply (read_loop_ok cf Hfix f f co [] _ I1 R1)|apply (read_loop_tok f f co [] _ RC RF I1 R1 T1)]|].
-  intros rq s2 [I2 T2]. apply flush_requeue_tok; auto.
+  intros rq s2 [[I2 R2] T2]. apply safe_bind.
+  eapply safe_mono; [apply safe_both; [apply (flush_requeue_reading cf Hfix f rq co s2 I2 R2)|apply (flush_requeue_tok f rq s2 RC RF I2 T2)]|].
+  intros [] s3 [[I3 R3] [_ T3]].
+  apply safe_both; [apply (read_done_ok s3 co I3 R3)|apply (read_done_tok s3 co RC RF I3 R3 T3)].
 Qed.
 
 End FixedT2.
